@@ -490,3 +490,58 @@ func dcShortcutStage(r *ev.Run, full bool) {
 		}
 	})
 }
+
+// ---------------------------------------------------------------- conjugated marching cubes / squares
+
+// conjStage: MarchingCubesConj(s, d, iters, t1, t2) is "MarchingCubesSearch in the transformed space, carried back":
+// the search result for TransformSolid(t1 then t2, s) - which the lattice stages judge - is carried back here by the
+// inverses applied in reverse order (written out in the harness, not taken from JoinedTransform.Inverse), and must be
+// the returned mesh, face by face. Pairs that do not commute, in both orders.
+func conjStage(r *ev.Run, full bool) {
+	rot := model3d.Rotation(model3d.XYZ(0.3, -0.2, 0.9).Normalize(), 0.7)
+	type step struct {
+		name string
+		t    model3d.Transform
+	}
+	steps := []step{
+		{"Rotation", rot},
+		{"Translate", &model3d.Translate{Offset: model3d.XYZ(0.7, -1.3, 0.4)}},
+		{"VecScale", &model3d.VecScale{Scale: model3d.XYZ(1.5, 0.75, 2)}},
+		{"Scale", &model3d.Scale{Scale: 0.5}},
+	}
+	solids := csgSolids(false)
+	if !full && len(solids) > 4 {
+		solids = solids[:4]
+	}
+	for _, s := range solids {
+		if !nonEmpty(s.s) {
+			continue
+		}
+		for i, a := range steps {
+			for j, b := range steps {
+				if i == j {
+					continue
+				}
+				r.Eval(1)
+				c := gcase{Algo: "MarchingCubesConj", Solid: s.name, Delta: 0.31, Iters: 2, Opts: a.name + " then " + b.name}
+				var got, fwd *model3d.Mesh
+				if p := ev.Try(func() {
+					got = model3d.MarchingCubesConj(s.s, 0.31, 2, a.t, b.t)
+					fwd = model3d.MarchingCubesSearch(model3d.TransformSolid(b.t, model3d.TransformSolid(a.t, s.s)), 0.31, 2)
+				}); p != "" {
+					r.Violation("conj/panic", c.Solid+" "+c.Opts+": panic: "+p, c)
+					continue
+				}
+				ai, bi := a.t.Inverse(), b.t.Inverse()
+				want := fwd.MapCoords(func(p c3) c3 { return ai.Apply(bi.Apply(p)) })
+				if want.NumTriangles() != got.NumTriangles() || !sameKeys(triKeys(snapTo(got, want, 1e-9)), triKeys(want)) {
+					r.Violation("conj/not-the-pulled-back-mesh", fmt.Sprintf("%s, %s: MarchingCubesConj (%d faces) is not the searched mesh of the transformed solid carried back (%d faces)", c.Solid, c.Opts, got.NumTriangles(), want.NumTriangles()), c)
+					continue
+				}
+				if got.NumTriangles() > 0 {
+					r.NontrivialAdd(1)
+				}
+			}
+		}
+	}
+}
